@@ -1722,6 +1722,30 @@ def selftest(tier: str) -> int:
         if got != ((type_, v_const), (type_, v_link), (type_, 'unresolvable'), steps.MISSING):
             raise AssertionError('C08 selftest: K5 look() for type %s: %r' % (type_, got))
         n += 4
+    # (d) K6: the table of act-phase sites (harness/_C08_act.py) against the real program, natively: every site, the three ways
+    # of naming the actor, a handful of states of the referenced symbol (the obligations enumerate the full product)
+    from harness import _C08_act as act
+    kl = {c: i for i, c in enumerate(act.CONST_LABELS)}
+    states = [(None, 'string', None), ('setup', 'string', None), ('setup', 'list', None), ('setup', 'path-home', None),
+              ('setup', 'text-matcher', None), ('before-assert', 'string', None), ('cleanup', 'list', None),
+              ('setup', 'string', 'list'), ('setup', 'list', 'string'), (None, 'builtin-TAB', None)]
+    accepted = 0
+    for site in act.SITES:
+        for way in act.WAYS:
+            if not act.way_applies(site, way):
+                continue
+            for dphase, c, l in states:
+                const = act.CONSTS[kl[c]]
+                link = None if l is None else act.LINKS[act.LINK_LABELS.index(l)]
+                if not act.supported(site, way, dphase, const, link):
+                    continue
+                if act.check(site, way, dphase, const, link) is not True:
+                    raise AssertionError('C08 selftest: K6 site %s, actor named %s, definition in %s: %s %s' % (
+                        site[0], way, dphase, c, l))
+                accepted += act.act_program(site, way, dphase, const, link)[4]
+                n += 1
+    if accepted < len(act.SITES):
+        raise AssertionError('C08 selftest: K6 accepts too few programs: %d' % accepted)
     return n
 
 
@@ -1731,6 +1755,8 @@ ASSUMPTIONS = [
     'covered symbolically, for every file layout, by the K1:layout and K1:cli obligations',
     'K3: the predefined symbols S, T, L carry symbolic VALUES inside real constant SDVs; the syntax of values is C09',
     'subprocess.call is the only way exactly_lib starts processes; it is replaced by a recording stub that starts nothing (K1:cli, K3:cli)',
+    'K6: the recording stub process prints the line `out` and exits with 0; the processes run with the act directory as current '
+    'directory (no `cd` in the generated cases), so ../result/stdout is the result file the stub of the [assert] probe reads',
 ]
 OUTSIDE = [
     'programs longer than the stated number of statements / chains longer than stated (no induction over program length)',
